@@ -20,6 +20,7 @@
 #include <AIToolbox/POMDP/SparseModel.hpp>
 #include <AIToolbox/POMDP/Policies/Policy.hpp>
 #include <AIToolbox/POMDP/Utils.hpp>
+#include <memory>
 #include "vio.hpp"
 
 using namespace AIToolbox;
@@ -236,10 +237,34 @@ static void digits(vio::Cursor & c, vio::Out & o) {
     o << text(a) << text(b);
 }
 
+// MDP::Policy obtained by copy construction and then loaded into: the loaded object, seen
+// through its public interface, must be the written one and the copy's source must not change.
+// case: polcopy S A <X> <D>   output: T <tokens> X <dump> D <dump> <status> <dump of the copy> <dump of D afterwards>
+static void polcopy(vio::Cursor & c, vio::Out & o) {
+    Dims d; d.S = c.nextSize(); d.A = c.nextSize(); d.O = 0;
+    MDP::Policy X = build<MDP::Policy>(c, d);
+    auto src = std::make_unique<MDP::Policy>(build<MDP::Policy>(c, d));
+    const Dump dX = dump(X), dD = dump(*src);
+    std::ostringstream os; os << X;
+    std::vector<std::string> toks; { std::istringstream ts(os.str()); std::string t; while (ts >> t) toks.push_back(t); }
+    MDP::Policy copy(*src);                       // copy constructor
+    std::istringstream is(os.str());
+    const char * st;
+    try { is >> copy; st = is.fail() ? "fail" : "ok"; } catch (const std::exception &) { st = "throw"; }
+    o << "T"; o.list(toks); o << "X"; o.list(dX.v); o << "D"; o.list(dD.v);
+    o << st; o.list(dump(copy).v); o.list(dump(*src).v);
+    // the copy must also survive its source
+    src.reset();
+    Dump after;
+    try { after = dump(copy); } catch (const std::exception &) { after.v = {"dangling"}; }
+    o.list(after.v);
+}
+
 int main(int argc, char ** argv) {
     return vio::runCases(argc, argv, [](vio::Cursor & c, vio::Out & o) {
         const std::string kind = c.next();
         if (kind == "digits") { digits(c, o); return; }
+        if (kind == "polcopy") { polcopy(c, o); return; }
         Dims d; d.S = c.nextSize(); d.A = c.nextSize(); d.O = 0;
         if (kind == "pmodel" || kind == "spmodel" || kind == "ppol") d.O = c.nextSize();
         if (kind == "model") run<MDP::Model>(c, o, d);
